@@ -29,6 +29,7 @@ DOCS = {
     'fence': '```py\nx\n```\n\n~~~\ny\n~~~\n\n``` \nz\n```\n',
     'html': '<!-- c -->\n\n<x-y>\nfoo\n\nbar\n\n<pre>\nz\n\n</pre>\n\n<?p ?>\nq\n',
     'custom-tag': '<x-note>\nfoo\n\nbar\n',
+    'html-interrupt': 'para\n<div>\nx\n</div>\n\npara\n# h\npara\n```\nf\n```\npara\n> q\n',
     'ref': '[r]: /u "t"\n\n[r] and [R][] and [x][r]\n',
     'table': 'para\na | b\n--|--\nc | d\n',
     'entity': '&copy; &amp; &#35; &copy\n\n[e]: /u&copy\n\n[e] [a](/u&copy)\n',
@@ -43,7 +44,7 @@ RENDER_CONFIGS = [
     ('Toc', {}), ('GithubWiki', {}), ('MathJax', {}), ('Pygments', {}), ('Jira', {}), ('XWiki20', {}),
 ]
 QUICK_CONFIGS = [('Html', {}), ('Markdown', {}), ('LaTeX', {}), ('XWiki20', {})]
-QUICK_DOCS = ['code', 'setext', 'custom-tag', 'quote-setext', 'empty-atx', 'entity-def', 'entity-inline']
+QUICK_DOCS = ['code', 'setext', 'custom-tag', 'html-interrupt', 'quote-setext', 'empty-atx', 'entity-def', 'entity-inline']
 
 
 class Boom(Exception):
